@@ -37,19 +37,21 @@ pub fn generate(prop: &str, seed: u64, tier: Tier) -> Program {
     let mut rng = prng::Rng::new(seed);
     match prop {
         "C01" | "C15" => Program::Fes(fes::generate(prop, &mut rng, tier)),
-        "C03" => {
-            if rng.chance(1, 2) {
-                Program::Fes(fes::generate(prop, &mut rng, tier))
-            } else {
-                Program::Rt(rt::generate(prop, &mut rng, tier))
-            }
-        }
+        "C03" => match rng.below(5) {
+            0 | 1 => Program::Fes(fes::generate(prop, &mut rng, tier)),
+            2 | 3 => Program::Rt(rt::generate(prop, &mut rng, tier)),
+            _ => Program::Net(net_gen::gen_c03_net(&mut rng, tier)),
+        },
         "C02" | "C10" | "C11" => Program::Rt(rt::generate(prop, &mut rng, tier)),
         "C08" => Program::Net(net_gen::gen_c08(&mut rng, tier)),
         "C07" => Program::Net(net_gen::gen_c07(&mut rng, tier)),
         "C12" => Program::Net(net_gen::gen_c12(&mut rng, tier)),
         "C14" => Program::Net(net_gen::gen_c14(&mut rng, tier)),
         "C04" => Program::Net(net_gen::gen_c04(&mut rng, tier)),
+        "C09" => Program::Net(net_gen::gen_c09(&mut rng, tier)),
+        "C13" => Program::Net(net_gen::gen_c13(&mut rng, tier)),
+        "C16" => Program::Net(net_gen::gen_c16(&mut rng, tier)),
+        "C20" => Program::Net(net_gen::gen_c20(&mut rng, tier)),
         _ => {
             eprintln!("dsim: no engine for property {prop}");
             std::process::exit(2);
@@ -65,16 +67,107 @@ pub fn execute(prop: &str, prog: &Program) -> RunInfo {
     }
 }
 
+thread_local! {
+    static REF_HASH: RefCell<Option<u64>> = const { RefCell::new(None) };
+}
+
+fn reference_program() -> net::NetProgram {
+    let mut rng = prng::Rng::new(0xC0FFEE);
+    let mut p = net_gen::gen_c04(&mut rng, Tier::Quick);
+    p.seed = 77;
+    p
+}
+
+/// Trace hash of a fixed reference simulation. Called once at worker start (fresh process) and again after
+/// simulations that ended with faults: "a new simulation behaves as in a fresh process".
+fn reference_hash() -> u64 {
+    let res = net::run_net(&reference_program(), &net::RunOpts::default());
+    let mut th = TraceHash(net::trace_hash(&res.trace));
+    th.push(hash64(&(res.ok, &res.errors, res.escaped_panic.is_some())));
+    th.0
+}
+
+pub fn init_reference() {
+    let h = reference_hash();
+    REF_HASH.with(|r| *r.borrow_mut() = Some(h));
+}
+
+fn follow_up_ok(prop: &str, what: &str, info: &mut RunInfo) -> bool {
+    let fresh = REF_HASH.with(|r| *r.borrow());
+    let Some(fresh) = fresh else { return true };
+    let r = std::panic::catch_unwind(reference_hash);
+    match r {
+        Ok(h) if h == fresh => true,
+        Ok(_) => {
+            info.violate(Violation::new(prop, "follow-up-differs", format!("a reference simulation run in the same process after {what} behaves differently than in a fresh process")));
+            false
+        }
+        Err(p) => {
+            let (msg, loc) = take_panic(p);
+            info.violate(Violation::new(prop, "follow-up-panics", format!("a reference simulation run in the same process after {what} panicked: {msg} at {loc}")));
+            info.tainted = true;
+            false
+        }
+    }
+}
+
 fn execute_net(prop: &str, p: &net::NetProgram) -> RunInfo {
     let mut info = RunInfo::default();
-    let opts = net::RunOpts { collect_gate_info: prop == "C08" };
+    let opts = net::RunOpts { collect_gate_info: prop == "C08", twin: false };
     let res = net::run_net(p, &opts);
     info.trace_hash = net::trace_hash(&res.trace);
     match prop {
+        "C09" => net_oracles::check_c09(p, &res, &mut info),
+        "C16" => net_oracles::check_c16(p, &res, &mut info),
+        "C13" => {
+            let twin = net::run_net(p, &net::RunOpts { collect_gate_info: false, twin: true });
+            net_oracles::check_c13(p, &res, &twin, &mut info);
+            if !info.has("C13") {
+                follow_up_ok("C13", "a simulation with panicking modules", &mut info);
+            }
+        }
+        "C20" => {
+            let stop = format!("end_mode {} max_events {} max_time {} ns drop_order {}", p.end_mode, p.max_events, p.max_time_ns, p.drop_order);
+            let mut ok = net_oracles::check_c20(p, &res, &stop, &mut info);
+            info.events += res.ok.map_or(0, |o| o.1 as u64);
+            let total_events = res.ok.map_or(0, |o| o.1);
+            let mut nontrivial = false;
+            let pending_msgs = |r: &net::NetResult| r.ok.map_or(false, |o| o.2 > 0);
+            nontrivial |= pending_msgs(&res);
+            // every stopping point of this program: EventCount(k) for each event index (bounded)
+            if ok && p.end_mode == 0 && p.max_events == 0 && p.max_time_ns == 0 {
+                let upto = total_events.min(40);
+                for k in 1..=upto {
+                    let mut q = p.clone();
+                    q.max_events = k as u64;
+                    let r = net::run_net(&q, &net::RunOpts::default());
+                    info.probe("stop_point_enumerated");
+                    nontrivial |= pending_msgs(&r);
+                    if !net_oracles::check_c20(&q, &r, &format!("stopped by EventCount({k}), drop_order {}", q.drop_order), &mut info) {
+                        ok = false;
+                        break;
+                    }
+                }
+            }
+            if ok {
+                follow_up_ok("C20", "dropping a simulation", &mut info);
+            }
+            match p.end_mode {
+                1 => info.probe("dropped_before_build"),
+                2 => info.probe("dropped_before_start"),
+                _ => {}
+            }
+            if res.ok.is_none() && res.started {
+                info.probe("ended_with_errors");
+            }
+            info.nontrivial = nontrivial;
+        }
+
         "C08" => net_oracles::check_c08(p, &res, &mut info),
         "C07" => net_oracles::check_c07(p, &res, &mut info),
         "C12" => net_oracles::check_c12(p, &res, &mut info),
         "C14" => net_oracles::check_c14(p, &res, &mut info),
+        "C03" => net_oracles::check_c03_net(p, &res, &mut info),
         "C04" => {
             // same program, same seed, again in this process
             let res2 = net::run_net(p, &opts);
@@ -396,7 +489,7 @@ fn perturb_process(seed: u64) {
     let sims = rng.below(20);
     for _ in 0..sims {
         let p = net_gen::gen_c04(&mut rng, Tier::Quick);
-        let _ = net::run_net(&p, &net::RunOpts { collect_gate_info: false });
+        let _ = net::run_net(&p, &net::RunOpts::default());
     }
     let kb = rng.below(2000) as usize;
     let prelude: Vec<u8> = vec![0xAB; kb * 1024 + 13];
@@ -468,6 +561,13 @@ fn main() {
     let wd: u64 = arg(&args, "--watchdog").and_then(|s| s.parse().ok()).unwrap_or(45);
     if wd > 0 {
         start_watchdog(wd);
+    }
+    if matches!(args.first().map(String::as_str), Some("run" | "exec")) {
+        let prop = arg(&args, "--prop").unwrap_or("");
+        if matches!(prop, "C13" | "C20") {
+            init_reference();
+            install_panic_hook();
+        }
     }
     let code = match args.first().map(String::as_str) {
         Some("run") => cmd_run(&args[1..]),
